@@ -9,22 +9,22 @@ VERIF = os.path.dirname(HERE)
 props = [json.loads(l) for l in open(os.path.join(VERIF, 'properties.jsonl'))]
 
 LEVEL = {
- 'C01': ('Lean 4 theorems: on every strictly parsing input satisfying the stated hypotheses the serialisation equals the source when no spacer precedes an opener (C08.output_exact / C16.output_is_input); the "well-formed documents parse" half and node slices are tied by correspondence and explored by the oracle', '5 C01'),
- 'C02': ('the tree-shape clause needs completeness of the reader on the grammar (Core C), which is not proved; decided by the three-way comparison generating AST / implementation / Lean model on grammar documents', '5 C02'),
+ 'C01': ('Lean 4 theorems: (i) for EVERY string that parses strictly and meets the side conditions (no NUL/DEL, no made-up arguments, plain environment names, no whitespace token before an opener) the serialisation equals the source (C01.roundtrip, from the conservation invariant of all reader functions); (ii) every well-formed, self-tokenizing document of the grammar parses to its generating tree (C02.document_parses = token-level completeness of the reader + tokenizer inverse); (iii) node positions carry the first token of the node (C13). The check also runs documents drawn from the proved Lean grammar through the implementation.', '0.5, 5 C01'),
+ 'C02': ('Lean 4 theorems: token-level completeness of the reader on a grammar of all documented constructs (leaf, group, math, commands with open/fixed/zero/special signatures and spaced argument runs, \\\\item, named and math environments, verbatim-like environments), any nesting, both tolerances, at the fuel the parser uses (C02.tree_mirrors_document); tokenizer inverse (tokenize_iff); composed at string level (C02.document_parses). The generating tree IS the result. Tie to the code: documents drawn from the Lean grammar + the Python generator, three-way comparison.', '0.5, 5 C02'),
  'C03': ('Lean 4 theorems over all trees: find_all is the filter of descendants, equals the structural occurrence list up to permutation without duplicate paths, find/count/getattr/name lists/absent names/full-expression queries as stated; model tied to data.py by correspondence at every node', '5 C03'),
  'C04': ('Lean 4 theorems over all trees: contents/children/iteration, descendants = transitive closure (permutation, every path once), text = non-blank leaves in serialisation order, root concatenation, parent = source of the view, parent chain reaches the root', '5 C04'),
  'C05': ('Lean 4 theorems over all trees and paths: delete/replace/insert/append are splices of the serialised text at the target span; nodes off the path unchanged; twins covered by path addressing; negative theorem for the unrepaired lookup', '5 C05'),
  'C06': ('Lean 4 theorems for every input: parse returns a tree or eof/type/assertion, never internal, never out of fuel (fuel = call depth; progress of every reader), plus origin of each diagnostic class; CPython recursion limit and wall-clock explored only', '5 C06'),
- 'C07': ('Lean 4 theorems for every input: strict success implies identical tolerant success (all reader functions); tolerant output = token text minus spacers before openers plus inserted closers; the lost-closer clause is explored', '5 C07'),
+ 'C07': ('Lean 4 theorems for every input: (a) strict success implies identical tolerant success (all reader functions); (c) tolerant output = token text minus spacers before openers plus inserted closers; (b) a token list with more { than } (resp. more \\\\begin than \\\\end) fails strictly with a diagnostic and parses tolerantly, under token-level hypotheses (C07b.lost_closer: brace/environment balance of strict success + tolerant totality outside math/lists); lost closing brackets explored only.', '0.5, 5 C07'),
  'C08': ('Lean 4 theorem for every input (any length, any nesting): conservation invariant of all twelve reader functions by induction on fuel, lifted to parse and to strings via the tokenizer theorems; hypotheses = property side conditions + recorded finding F4b', '5 C08'),
- 'C09': ('argument attachment: reader-level facts are instances of the conservation/progress invariants; the exact-run clause needs Core C and is decided by correspondence + oracle over the separator x position product', '5 C09'),
- 'C10': ('tokenizer theorems (comment token = % up to end of line; escaped symbols claimed first) proved for all inputs; payload-parametricity of the reader explored by the oracle', '5 C10'),
- 'C11': ('tokenizer theorem tokens_skipPlain (\\end{name} of a plain name is exactly five tokens at a token boundary) and conservation through read_skip_env proved; opacity clause explored by the oracle', '5 C11'),
- 'C12': ('tokenizer first-token theorems ($ vs $$, \\$ escaped, asymmetric switches, sizing commands as single tokens, prefix-free table) proved; reader clause explored by the oracle', '5 C12'),
- 'C13': ('Lean 4 theorem: char_pos_to_line = (line, column) for every string and offset; token offsets are true offsets (C19); node positions tied by correspondence (positions are part of the canonical tree) and explored', '5 C13'),
+ 'C09': ("Lean 4 theorems: a command followed by bracket groups then brace groups, each optionally preceded by one spacer token, is read with exactly these groups and the rest untouched (C09G.command_takes_its_groups, from completeness); the frame condition is necessary (what it excludes IS absorbed: three theorems exhibiting the reader's result); brackets outside argument position are leaves; groups close only on their own delimiter; conservation of argument contents. The separator x position product at character level is tied by correspondence + oracle.", '0.5, 5 C09'),
+ 'C10': ('Lean 4 theorems: comment token = % up to the next end-of-line character; escaped percent is never a comment; a comment is a leaf in every context and closes nothing; search never returns text leaves; and for every well-formed document of the grammar, replacing comment payloads (any payload without end-of-line characters) keeps it well-formed and separated and changes the parse result exactly at those leaves (C10G.comment_payload_does_not_matter, string level).', '0.5, 5 C10'),
+ 'C11': ('Lean 4 theorems: a verbatim-like environment is read as ONE uninterpreted text up to the first token boundary where \\\\end{name} starts, whatever the body contains, no error possible; user names behave like built-in ones (skip list enters by membership only); without the name in the list the same tokens are read by the ordinary rule; \\\\end{name} of a plain name is exactly five tokens (tokenizer theorem). Known finding F19 (blanks + opener at the start of the body) recorded.', '0.5, 5 C11'),
+ 'C12': ('Lean 4 theorems: $$ greedy, \\\\$ escaped, asymmetric switches, sizing commands single tokens with a prefix-free table (tokenizer, all inputs); each of the four regions and each named math environment yields one node of its kind whose body is the trees of the enclosed elements; brackets inside are leaves needing no partner; zero-argument operators absorb nothing (grammar completeness).', '0.5, 5 C12'),
+ 'C13': ('Lean 4 theorems: char_pos_to_line = (line, column) for every string and offset; every token text is the slice of the source at its recorded offset; every node position is the offset of the first token of the node and the node text starts with it (induction over the reader); a regex match inside a text token lies at token offset + match start (the regex engine itself is trusted).', '0.5, 5 C13'),
  'C14': ('Lean 4 theorems over all trees: rename/set-string/set-args are splices of exactly that span (both \\begin and \\end), search sees the change; re-parse clause explored', '5 C14'),
  'C15': ('Lean 4 theorem: any history of edits refines the string-splice reference model (induction over the operation list); tree well-formedness preserved', '5 C15'),
- 'C16': ('Lean 4 theorems: when no spacer was dropped the output is the input, hence a fixed point; second pass never grows; the squeeze case is explored by the oracle on every run', '5 C16'),
+ 'C16': ("Lean 4 theorems: for ALL inputs, when no spacer was dropped the output is the input, hence a fixed point, and a second pass never grows; for every well-formed document of the grammar written with arbitrary spacers between commands and arguments: the serialisation is the text of the squeezed document, which is well-formed and separated (under the property's sizing-prefix side condition), so re-parsing gives the same shape and text (C16G.reparse_fixed_point_of_source). Arbitrary non-grammar strings with dropped spacers: explored.", '0.5, 5 C16'),
  'C17': ('Lean 4 theorems: chunk flattening, prefix-free sizing table => iteration-order independence, parse is a function; agreement of the implementation across input forms, hash seeds, interleavings is translation validation by the check', '5 C17'),
  'C18': ('Lean 4 refinement: every TexArgs operation with every index refines Python list semantics, invariant preserved, lifted to all histories; coercion and serialisation theorems; negative theorems for the unrepaired code', '5 C18'),
  'C19': ('Lean 4 theorems for every string: categorize is index-wise, tokens partition the input up to ignored characters, no empty token, true offsets, tokenizer always makes progress', '5 C19'),
